@@ -68,6 +68,7 @@ func main() {
 		fmt.Println("NOTE", n)
 	}
 	fixErr := runFixtures(*fixtures)
+	variantCache := map[string]*Ctx{}
 	worst := 0
 	for _, id := range ids {
 		tp := time.Now()
@@ -93,6 +94,54 @@ func main() {
 			}()
 			specs[id].run(&c)
 		}()
+		// thorough: the same rules once more on the program as other build configurations see it (integer width,
+		// path separators, build-tagged files); their obligations are kept apart by a prefix
+		if *tier == "thorough" && fixErr == nil {
+			for _, v := range specs[id].variants {
+				vb, ok := variantCache[v.name]
+				if !ok {
+					loaded, verr := load(*repo, v.env)
+					if verr != nil {
+						c.undecided("variant %s: cannot load/type-check: %v", v.name, verr)
+						variantCache[v.name] = nil
+						continue
+					}
+					loaded.resolveRenames(*anchors)
+					variantCache[v.name] = loaded
+					vb = loaded
+				}
+				if vb == nil {
+					continue
+				}
+				vc := *vb
+				vc.Prop, vc.Tier = id, *tier
+				vc.Obs, vc.Undec, vc.Notes = nil, nil, nil
+				vc.Sites, vc.Funcs, vc.Rules = map[string]int{}, map[string]bool{}, map[string]string{}
+				func() {
+					defer func() {
+						if r := recover(); r != nil {
+							if u, ok := r.(undecidedErr); ok {
+								c.undecided("variant %s: %s", v.name, u.msg)
+								return
+							}
+							c.undecided("variant %s: analyser panic: %v", v.name, r)
+						}
+					}()
+					specs[id].run(&vc)
+				}()
+				for _, o := range vc.Obs {
+					o.Construct = "[" + v.name + "] " + o.Construct
+					c.Obs = append(c.Obs, o)
+				}
+				for _, u := range vc.Undec {
+					c.undecided("variant %s: %s", v.name, u)
+				}
+				for k, n := range vc.Sites {
+					c.Sites["["+v.name+"] "+k] = n
+				}
+				c.Notes = append(c.Notes, "variant "+v.name+" ("+strings.Join(v.env, " ")+") analysed: "+strconv.Itoa(len(vc.Obs))+" obligations")
+			}
+		}
 		cmd := fmt.Sprintf("cd /verif && ./check %s %s", id, *tier)
 		e := finish(&c, specs[id], known, *evDir, tp, seed, cmd)
 		if e > worst {
